@@ -1,6 +1,6 @@
 """Runs SYM tasks (vc.Case or custom callables) in the process pool and books the records into the Ctx."""
 from __future__ import annotations
-import re, time
+import os, re, time
 from . import core
 from .core import SYM, PROVED, REFUTED, UNKNOWN
 from .pyvc import vc
@@ -183,8 +183,14 @@ def purity(ctx, fns, family_name, allow=()):
                     if tag not in constants:
                         constants.append(tag)
         ok = not bad
-        ctx.record(fam, core.PROVED if ok else core.REFUTED, {"function": f.__qualname__})
-        if not ok:
+        strict = os.environ.get("HV_PURITY_POLICY", "undecided") == "violation"
+        ctx.record(fam, core.PROVED if ok else (core.REFUTED if strict else core.UNKNOWN), {"function": f.__qualname__})
+        if not ok and not strict:
+            # a CORRECT memoisation breaks no property: the static argument 'result is a function of the arguments' is withdrawn (UNDECIDED) and the
+            # behavioural history families (cold/warm, colliding keys, edited results) decide whether results really depend on the call history
+            ctx.undecide(fam, f"{f.__module__}.{f.__qualname__} reads module-level state that the module writes: {sorted(set(bad))} - the per-call proofs, which treat it as a "
+                              "function of its arguments, are withdrawn; the call-history families decide")
+        elif not ok:
             ctx.violate(fam, f"purity:{f.__module__}.{f.__qualname__}:{sorted(set(bad))}",
                         f"{f.__module__}.{f.__qualname__} depends on module-level mutable state: {sorted(set(bad))} - its result is no longer a function of its arguments",
                         {"function": f.__qualname__, "state": sorted(set(bad))}, has_input=False)
